@@ -338,6 +338,172 @@ theorem drive_fix_early (c : Config) (z0 : Zone) (msgs : List Msg) (callerRaises
       simp only [exit_zone]
       rw [(feedLoop_fix_zone (s := s)).2 _ h1 h]; exact hz
 
+/-! ## a non-incremental transfer never looks at the serial -/
+
+def eraseSerial (s : Inbound) : Inbound := { s with serial := none }
+
+def mapR (f : Inbound → Inbound) : R → R
+  | .error e => .error e
+  | .ok s => .ok (f s)
+
+set_option linter.unusedSimpArgs false in
+theorem procRRset_nonincr (fix : Bool) (s : Inbound) (rr : RRset) (more : Bool) (hi : s.incremental = false) :
+    procRRset fix (eraseSerial s) rr more = mapR eraseSerial (procRRset fix s rr more) ∧
+      (∀ s', procRRset fix s rr more = .ok s' → s'.incremental = false) := by
+  obtain ⟨o, t, inc, ser, udp, soa, done, exp, dm, txn, z⟩ := s
+  simp only at hi
+  subst hi
+  cases done
+  · cases txn with
+    | none => simp [procRRset, eraseSerial, mapR]
+    | some x =>
+      by_cases hk : rr.rdtype = soaType ∧ rr.owner = o
+      · cases hf : eqFirst soa rr
+        · simp [procRRset, eraseSerial, mapR, hk, isFinalSoa, nextDm, hf, procOtherSoa]
+        · cases exp
+          · cases hm : (fix && more)
+            · cases ht : txnReplace o x rr <;>
+                simp [procRRset, eraseSerial, mapR, hk, isFinalSoa, nextDm, hf, procFinalSoa, hm, ht]
+            · simp [procRRset, eraseSerial, mapR, hk, isFinalSoa, nextDm, hf, procFinalSoa, hm]
+          · simp [procRRset, eraseSerial, mapR, hk, isFinalSoa, nextDm, hf, procFinalSoa]
+      · cases exp <;> cases hz : isSubdomain rr.owner o <;> cases dm <;>
+          simp [procRRset, eraseSerial, mapR, hk, fallbackState, fallbackTxn, procData, hz] <;>
+          (first | (cases ht : txnDeleteExact x rr <;> simp [ht]) | (cases ht : txnAdd o x rr <;> simp [ht])
+                 | (cases ht : txnAdd o (writer z true) rr <;> simp [ht]) | skip)
+  · simp [procRRset, eraseSerial, mapR]
+
+theorem mapR_ok {f : Inbound → Inbound} {r : R} {s' : Inbound} (h : mapR f r = .ok s') : ∃ s, r = .ok s ∧ s' = f s := by
+  cases r with
+  | error e => cases h
+  | ok s => cases h; exact ⟨s, rfl, rfl⟩
+
+theorem procAnswers_nonincr (fix : Bool) : ∀ (l : List RRset) (s : Inbound), s.incremental = false →
+    procAnswers fix (eraseSerial s) l = mapR eraseSerial (procAnswers fix s l) ∧
+      (∀ s', procAnswers fix s l = .ok s' → s'.incremental = false) := by
+  intro l
+  induction l with
+  | nil => intro s hi; exact ⟨rfl, fun s' h => by cases h; exact hi⟩
+  | cons rr rest ih =>
+    intro s hi
+    have h1 := procRRset_nonincr fix s rr (!rest.isEmpty) hi
+    unfold procAnswers
+    rw [h1.1]
+    cases hr : procRRset fix s rr (!rest.isEmpty) with
+    | error e => exact ⟨rfl, fun s' h => by cases h⟩
+    | ok s1 =>
+      have hi1 := h1.2 s1 hr
+      simp only [mapR]
+      exact ih s1 hi1
+
+set_option linter.unusedSimpArgs false in
+theorem firstSoa_nonincr (s : Inbound) (rr : RRset) (b : Bool) (hi : s.incremental = false) :
+    firstSoa (eraseSerial s) rr b = mapR eraseSerial (firstSoa s rr b) ∧
+      (∀ s', firstSoa s rr b = .ok s' → s'.incremental = false) := by
+  obtain ⟨o, t, inc, ser, udp, soa, done, exp, dm, txn, z⟩ := s
+  simp only at hi
+  subst hi
+  by_cases h1 : rr.owner = o <;> by_cases h2 : rr.rdtype = soaType <;>
+    simp [firstSoa, eraseSerial, mapR, h1, h2]
+
+theorem openTxn_eraseSerial (s : Inbound) : openTxn (eraseSerial s) = eraseSerial (openTxn s) := by
+  unfold openTxn eraseSerial
+  cases h : s.txn <;> simp [h]
+
+theorem procMessage_nonincr (fix : Bool) (s : Inbound) (m : Msg) (hi : s.incremental = false) :
+    procMessage fix (eraseSerial s) m = mapR eraseSerial (procMessage fix s m) ∧
+      (∀ s', procMessage fix s m = .ok s' → s'.incremental = false) := by
+  have hio : (openTxn s).incremental = false := by unfold openTxn; split <;> simp [hi]
+  have hh : headerErr (openTxn (eraseSerial s)) m = headerErr (openTxn s) m := by
+    rw [openTxn_eraseSerial]; rfl
+  have hz : (eraseSerial s).zone = s.zone := rfl
+  unfold procMessage
+  rw [hh, hz]
+  cases headerErr (openTxn s) m with
+  | some e => exact ⟨rfl, fun s' h => by cases h⟩
+  | none =>
+    simp only []
+    rw [openTxn_eraseSerial]
+    -- the body
+    have hbody : procBody fix (eraseSerial (openTxn s)) m = mapR eraseSerial (procBody fix (openTxn s) m) ∧
+        (∀ s', procBody fix (openTxn s) m = .ok s' → s'.incremental = false) := by
+      unfold procBody
+      have hsoa : (eraseSerial (openTxn s)).soa = (openTxn s).soa := rfl
+      rw [hsoa]
+      cases hs : (openTxn s).soa with
+      | some f => exact procAnswers_nonincr fix m.answer (openTxn s) hio
+      | none =>
+        simp only []
+        cases ha : m.answer with
+        | nil => exact ⟨rfl, fun s' h => by cases h⟩
+        | cons rr rest =>
+          simp only []
+          have hf := firstSoa_nonincr (openTxn s) rr rest.isEmpty hio
+          rw [hf.1]
+          cases hr : firstSoa (openTxn s) rr rest.isEmpty with
+          | error e => exact ⟨rfl, fun s' h => by cases h⟩
+          | ok s1 =>
+            simp only [mapR]
+            exact procAnswers_nonincr fix rest s1 (hf.2 s1 hr)
+    rw [hbody.1]
+    cases hb : procBody fix (openTxn s) m with
+    | error e => exact ⟨rfl, fun s' h => by cases h⟩
+    | ok s2 =>
+      simp only [mapR]
+      have hi2 := hbody.2 s2 hb
+      constructor
+      · unfold udpCheck eraseSerial
+        simp only []
+        split <;> rfl
+      · intro s' h
+        unfold udpCheck at h
+        split at h
+        · cases h
+        · cases h; exact hi2
+
+theorem runLoop_nonincr (fix : Bool) : ∀ (msgs : List Msg) (s : Inbound), s.incremental = false →
+    runLoop fix (eraseSerial s) msgs = mapR eraseSerial (runLoop fix s msgs) := by
+  intro msgs
+  induction msgs with
+  | nil => intro s _; rfl
+  | cons m ms ih =>
+    intro s hi
+    have h1 := procMessage_nonincr fix s m hi
+    unfold runLoop
+    rw [h1.1]
+    cases hr : procMessage fix s m with
+    | error e => rfl
+    | ok s1 =>
+      simp only [mapR]
+      have hd : (eraseSerial s1).done = s1.done := rfl
+      rw [hd]
+      split
+      · rfl
+      · exact ih s1 (h1.2 s1 hr)
+
+/-- **An AXFR ignores the serial handed to `Inbound`**: whatever serial the caller passes (its local one, 0
+as `dns.query.xfr` does, one equal to, behind or far from the server's), the outcome — exception and zone —
+is that of `serial=None`, for every message sequence. -/
+theorem run_axfr_serial (fix : Bool) (origin : Option Name) (ser : Option Nat) (udp : Bool) (z0 : Zone) (msgs : List Msg) :
+    run fix ⟨origin, axfrType, ser, udp⟩ z0 msgs = run fix ⟨origin, axfrType, none, udp⟩ z0 msgs := by
+  unfold run
+  cases udp with
+  | true => simp [Inbound.init, axfrType, ixfrType]
+  | false =>
+    cases origin with
+    | none => simp [Inbound.init, axfrType, ixfrType]
+    | some o =>
+      have h1 : Inbound.init (some o) z0 axfrType ser false =
+          .ok ⟨o, axfrType, false, ser, false, none, false, false, false, none, z0⟩ := by
+        simp [Inbound.init, axfrType, ixfrType]
+      have h2 : Inbound.init (some o) z0 axfrType none false =
+          .ok (eraseSerial ⟨o, axfrType, false, ser, false, none, false, false, false, none, z0⟩) := by
+        simp [Inbound.init, axfrType, ixfrType, eraseSerial]
+      simp only [h1, h2]
+      rw [runLoop_nonincr fix msgs _ rfl]
+      cases runLoop fix ⟨o, axfrType, false, ser, false, none, false, false, false, none, z0⟩ msgs with
+      | error e => rfl
+      | ok s' => rfl
+
 /-! ## the two variants differ only in the D11 situation -/
 
 /-- `a` (as shipped) and `b` (repaired) are the same result, or both raise `FormError` (and may differ
